@@ -77,9 +77,12 @@ def m1(ctx):
     for n_ in cfg.nodes:
         for c_ in n_.calls():
             if (dotted(c_.func) or "").endswith("get_properties_with_data"):
-                a2 = origins(du, n_, c_.args[2]) if len(c_.args) > 2 else []
-                data_calls_ok.append(bool(c_.args) and dotted(c_.args[0]) == "self.data_property" and bool(a2)
-                                     and all(o.kind == "elem" and o.node in mg_loops and o.path == (1,) for o in a2))
+                from .common import call_arg
+                a_res = call_arg(ctx, fi, c_, "resource", 2)
+                a_dp = call_arg(ctx, fi, c_, "data_property", 0)
+                a2 = origins(du, n_, a_res) if a_res is not None else []
+                data_calls_ok.append(a_dp is not None and dotted(a_dp) == "self.data_property" and bool(a2)
+                                     and all(o.kind == "elem" and o.node in mg_loops and tuple(o.path) == (1,) for o in a2))
     for y in ys:
         st = y.ast.value.value
         isnone = None
@@ -341,8 +344,9 @@ def m4(ctx):
     du = DefUse(cfg)
     # the caller's property table (4th parameter) is never modified in place: whatever is written to, updated or
     # popped from must be a private object (dict(properties), {**properties, ...}, properties.copy())
-    p_tab = gp.params[3] if len(gp.params) > 3 else "properties"
-    p_data = gp.params[0] if gp.params else "data_property"
+    all_params = [x.arg for x in gp.node.args.posonlyargs + gp.node.args.args + gp.node.args.kwonlyargs]
+    p_tab = "properties" if "properties" in all_params else (gp.params[3] if len(gp.params) > 3 else "properties")
+    p_data = "data_property" if "data_property" in all_params else (gp.params[0] if gp.params else "data_property")
     shared_mut = []
     added = False
     for n in cfg.stmt_nodes():
